@@ -140,6 +140,13 @@ pub fn db_image(db: &mut crate::outstation::database::Database) -> Vec<u8> {
     let _ = db
         .inner
         .select_by_header(ReadHeader::Static(StaticReadHeader::Class0));
+    // device attributes: every attribute of every set, then the lists of variations (these carry the writable marks)
+    let _ = db.inner.select_by_header(ReadHeader::Attr(
+        crate::outstation::database::read::AttrHeader::All(254),
+    ));
+    let _ = db.inner.select_by_header(ReadHeader::Attr(
+        crate::outstation::database::read::AttrHeader::All(255),
+    ));
     let mut buf = vec![0u8; 60_000];
     let n = {
         let mut cursor = scursor::WriteCursor::new(&mut buf);
